@@ -177,12 +177,19 @@ def run(ctx):
     rep.rule('R-TOC-FILTER', 'collection predicate = not(omit_title and level==1) and level<=depth and no filter matches')
     rep.rule('R-TOC-ORDER', 'appended once at the end as (level, plain text); rendered heading returned unchanged; toc arithmetic')
     toc = model.cls('contrib.toc_renderer.TocRenderer')
-    rh = toc.methods.get('render_heading')
-    if rh is None:
+    hit = toc.lookup('render_heading')
+    if hit is None or hit[0] != 'method':
         raise AnalysisError('anchor vanished: TocRenderer.render_heading')
-    unit = model.unit_of(toc)
-    sup = toc.lookup_after(toc, 'render_heading')[1]
-    prh = model.method('contrib.toc_renderer.TocRenderer', 'parse_rendered_heading')
+    rh = hit[1]                     # the method TocRenderer instances dispatch headings to (own or inherited from a mixin)
+    unit = model.unit_of(rh)
+    nxt = toc.lookup_after(hit[2], 'render_heading')
+    if nxt is None:
+        raise AnalysisError('anchor vanished: no render_heading after %s in the MRO of TocRenderer' % hit[2].short)
+    sup = nxt[1]
+    hit2 = toc.lookup('parse_rendered_heading')
+    if hit2 is None or hit2[0] != 'method':
+        raise AnalysisError('anchor vanished: TocRenderer.parse_rendered_heading')
+    prh = hit2[1]
     cfg = [c for c in ctx.configs() if c.label == 'TocRenderer' and not c.options][0]
     rep.instance('R-TOC-FILTER')
     shapes = [[], [False], [True], [False, True], [True, False]]
@@ -269,6 +276,8 @@ def run(ctx):
         it = Interp(model)
         it.reset_run(oracle)
         it.intrinsics['re.sub'] = lambda interp, args, kwargs: rec.setdefault('args', args) and 'X'
+        # a precompiled pattern object: <pattern>.sub(repl, string)
+        it.intrinsics['rx.sub'] = lambda interp, args, kwargs: rec.setdefault('args', [args[0].pattern] + list(args[1:])) and 'X'
         return it.call_function(prh, [AbsStr(label='rendered')], {}) if prh.kind == 'staticmethod' else \
             it.call_function(prh, [T.clone_obj(cfg.obj), AbsStr(label='rendered')], {})
     list(enumerate_paths(runner2, 8))
@@ -292,9 +301,10 @@ def run(ctx):
         rep.find('R-TOC-ORDER', prh.short, 'strip-tags', detail, loc(unit, prh.node))
 
     # toc: arity and indentation
-    tocp = toc.methods.get('toc')
-    if tocp is None:
+    hit3 = toc.lookup('toc')
+    if hit3 is None or hit3[0] != 'method':
         raise AnalysisError('anchor vanished: TocRenderer.toc')
+    tocp = hit3[1]
     rep.instance('R-TOC-ORDER')
     for A in (False, True):
         rec2 = {}
